@@ -375,3 +375,56 @@ Section FieldMembers.
     subst kb. eauto.
   Qed.
 End FieldMembers.
+
+(** ** C08 for whole receivers: the result of an element-level receiver is invariant under any
+    re-partition of the element's selected attributes (the element being otherwise the same) *)
+Section ReceiverPartition.
+  Variable pf : bool -> string -> option N.
+  Variable reparse : grammar -> string -> option string.
+  Variable reparse_arr : string -> option expr.
+  Variable reparse_preds : string -> option (list string).
+  Variable sugg : bool.
+  Variable sim : string -> string -> N.
+  Variable interp_with : fnid -> nested -> res value.
+  Variable interp_fn : fnid -> value -> res value.
+  Variable interp_attrs : fnid -> list attribute -> res value.
+  Variable interp_data : fnid -> dbody -> res value.
+
+  Notation from_field := (from_field pf reparse reparse_arr reparse_preds sugg sim interp_with interp_fn interp_attrs).
+  Notation from_variant := (from_variant pf reparse reparse_arr reparse_preds sugg sim interp_with interp_fn interp_attrs).
+  Notation from_attributes := (from_attributes pf reparse reparse_arr reparse_preds sugg sim interp_with interp_fn interp_attrs).
+  Notation from_derive_input := (from_derive_input pf reparse reparse_arr reparse_preds sugg sim interp_with interp_fn interp_attrs interp_data).
+
+  Definition same_selection (b : obase) (attrs attrs' : list attribute) : Prop :=
+    Forall (mergeable b) attrs /\ Forall (mergeable b) attrs'
+    /\ flat_map (sel_items b) attrs = flat_map (sel_items b) attrs'
+    /\ filter (forwarded b) attrs = filter (forwarded b) attrs'.
+
+  Lemma extract_same b attrs attrs' : same_selection b attrs attrs' ->
+    extract pf reparse reparse_arr reparse_preds sugg sim interp_with interp_fn interp_attrs b attrs
+    = extract pf reparse reparse_arr reparse_preds sugg sim interp_with interp_fn interp_attrs b attrs'.
+  Proof. intros [M [M' [E F]]]. now apply extract_partition_invariant. Qed.
+
+  Theorem from_attributes_partition_invariant b attrs attrs' :
+    same_selection b attrs attrs' -> from_attributes b attrs = from_attributes b attrs'.
+  Proof. intros S. unfold Outer.from_attributes. now rewrite (extract_same b attrs attrs' S). Qed.
+
+  Theorem from_field_partition_invariant b pass i attrs attrs' ident vis ty :
+    same_selection b attrs attrs' ->
+    from_field (FcRecv b pass) (mkFE i attrs ident vis ty) = from_field (FcRecv b pass) (mkFE i attrs' ident vis ty).
+  Proof. intros S. cbn [Outer.from_field fe_attrs fe_ident]. now rewrite (extract_same b attrs attrs' S). Qed.
+
+  Theorem from_variant_partition_invariant b pass fm sup i attrs attrs' ident discr style fields :
+    same_selection b attrs attrs' ->
+    from_variant (VcRecv b pass fm sup) (mkVE i attrs ident discr style fields)
+    = from_variant (VcRecv b pass fm sup) (mkVE i attrs' ident discr style fields).
+  Proof. intros S. cbn [Outer.from_variant ve_attrs ve_ident ve_style ve_fields]. now rewrite (extract_same b attrs attrs' S). Qed.
+
+  Theorem from_derive_input_partition_invariant r i attrs attrs' ident vis g body :
+    same_selection (dr_b r) attrs attrs' ->
+    from_derive_input r (mkDIn i attrs ident vis g body) = from_derive_input r (mkDIn i attrs' ident vis g body).
+  Proof.
+    intros S. unfold Outer.from_derive_input. cbn [din_attrs din_ident din_vis din_generics din_body].
+    now rewrite (extract_same (dr_b r) attrs attrs' S).
+  Qed.
+End ReceiverPartition.
